@@ -626,6 +626,80 @@ example : (∀ f ∈ ([.fn 0, .fn 1, .glob 0] : List Sym),
 
 end UsageCycles
 
+/-! ## Several KINDS of implicit parameters in one function (coverage pass 2, stream `wave:<seed>`)
+
+`analyse_globals` pushes one `ImplicitFunctionParameter` per symbol of the closed usage set: `Global(id)` for a
+global, `ThreadIndexInSimdgroup` / `ThreadsPerSimdgroup` / `MeshOutput` / `PayloadOutput` + `MeshGridProperties` for the
+lane and mesh intrinsics (regenerated `Gen.UsageTables.intrinsicImplicits`), then `required_globals.sort()`.  The C02
+model (`implicitsOfSet`, `sortImplicit`) has all kinds; the theorems below state order independence for sets that MIX
+the kinds and transcribe the self-mutation "order the globals only" as a negative example. -/
+section ImplicitKinds
+open RsslVerif.Model.Usage RsslVerif.Gen.UsageTables
+
+/-- two lane intrinsics, the mesh intrinsic, one user function and two non-constant globals -/
+def kindsProgram : Program :=
+  { globals := [{ name := "g_ro", storage := .Extern, isConst := false, staticSampler := false, isObject := true },
+                { name := "s_acc", storage := .Static, isConst := false, staticSampler := false, isObject := false }],
+    funcs := [{ name := "both", params := [.in_], items := [] },
+              { name := "WaveGetLaneIndex", params := [], items := [], intrinsic := some "WaveGetLaneIndex" },
+              { name := "WaveGetLaneCount", params := [], items := [], intrinsic := some "WaveGetLaneCount" },
+              { name := "SetMeshOutputCounts", params := [.in_, .in_], items := [], intrinsic := some "SetMeshOutputCounts" }] }
+
+/-- **For EVERY program and every two iteration orders of a function's closed usage set** (whatever mixture of
+    globals, lane intrinsics, mesh intrinsics, user functions and constant buffers it holds) the implicit parameter
+    list is the same: both walks succeed or both hit the same kind of failure, and the sorted lists are equal. -/
+theorem required_kinds_order_independent (p : Program) {ss₁ ss₂ : List Sym} (h : ss₁.Perm ss₂)
+    {l₁ l₂ : List Implicit} (h₁ : implicitsOfSet p ss₁ = .ok l₁) (h₂ : implicitsOfSet p ss₂ = .ok l₂) :
+    sortImplicit l₁ = sortImplicit l₂ := by
+  rw [RsslVerif.Thm.C02.implicitsOfSet_ok h₁, RsslVerif.Thm.C02.implicitsOfSet_ok h₂]
+  exact RsslVerif.Thm.C02.required_order_independent (h.flatMap_right _)
+
+/-- non-vacuity on a set that mixes all kinds: with the REGENERATED variant order and intrinsic table, two opposite
+    walks of {SetMeshOutputCounts, s_acc, WaveGetLaneCount, g_ro, WaveGetLaneIndex, both} give
+    `[ThreadIndexInSimdgroup, ThreadsPerSimdgroup, MeshOutput, Global 0, Global 1]` -/
+theorem required_kinds_instance :
+    let ss₁ : List Sym := [.fn 3, .glob 1, .fn 2, .glob 0, .fn 1, .fn 0]
+    let ss₂ : List Sym := [.fn 0, .fn 1, .glob 0, .fn 2, .glob 1, .fn 3]
+    ss₁.Perm ss₂ ∧
+    (implicitsOfSet kindsProgram ss₁).toOption.map sortImplicit =
+      some [⟨variantIndex "ThreadIndexInSimdgroup", 0⟩, ⟨variantIndex "ThreadsPerSimdgroup", 0⟩,
+            ⟨variantIndex "MeshOutput", 0⟩, ⟨globalVariant, 0⟩, ⟨globalVariant, 1⟩] ∧
+    (implicitsOfSet kindsProgram ss₂).toOption.map sortImplicit =
+      (implicitsOfSet kindsProgram ss₁).toOption.map sortImplicit ∧
+    (implicitsOfSet kindsProgram ss₁).toOption ≠ (implicitsOfSet kindsProgram ss₂).toOption := by
+  decide
+
+/-- the self-mutation of this round: the built-in kinds keep the order of the walk, only the globals are sorted -/
+def sortGlobalsOnly (l : List Implicit) : List Implicit :=
+  l.filter (fun i => i.variant != globalVariant) ++ sortImplicit (l.filter (fun i => i.variant == globalVariant))
+
+/-- (negation with witness) "sort the globals only" IS order dependent as soon as one function reaches both lane
+    intrinsics - the input class no stream produced before `wave:` - while it agrees with the real `sort()` on every
+    list that holds globals only (`sortGlobalsOnly_eq_on_globals`), which is why the older streams could not see it -/
+theorem globals_only_sort_order_dependent :
+    let ss₁ : List Sym := [.fn 1, .glob 1, .fn 2, .glob 0]
+    let ss₂ : List Sym := [.glob 0, .fn 2, .glob 1, .fn 1]
+    ss₁.Perm ss₂ ∧
+    (implicitsOfSet kindsProgram ss₁).toOption.map sortGlobalsOnly ≠
+      (implicitsOfSet kindsProgram ss₂).toOption.map sortGlobalsOnly ∧
+    (implicitsOfSet kindsProgram ss₁).toOption.map sortImplicit =
+      (implicitsOfSet kindsProgram ss₂).toOption.map sortImplicit := by
+  decide
+
+theorem sortGlobalsOnly_eq_on_globals (l : List Implicit) (h : ∀ i ∈ l, i.variant = globalVariant) :
+    sortGlobalsOnly l = sortImplicit l := by
+  have h1 : l.filter (fun i => i.variant != globalVariant) = [] := by
+    apply List.filter_eq_nil_iff.2
+    intro i hi
+    simp [h i hi]
+  have h2 : l.filter (fun i => i.variant == globalVariant) = l := by
+    apply List.filter_eq_self.2
+    intro i hi
+    simp [h i hi]
+  simp [sortGlobalsOnly, h1, h2]
+
+end ImplicitKinds
+
 /-! Non-vacuity: a check-only loop with two failing elements that report the same constant. -/
 example : firstFailure (fun n : Nat => if n > 2 then some "duplicate" else none) [1, 5, 2, 7] =
     firstFailure (fun n : Nat => if n > 2 then some "duplicate" else none) [7, 2, 1, 5] :=
